@@ -47,6 +47,8 @@ func main() {
 		runC19stress(*tier, *seed, out)
 	case "C19":
 		out.emit(J{"k": "qmeta", "pid": "C19", "note": "C19 is decided by the sharing table and the stress stage"})
+	case "C06stress":
+		runC06stress(*tier, *seed, out)
 	case "C04stress":
 		runC04stress(*tier, *seed, out)
 	case "C18":
